@@ -7,6 +7,28 @@ VERIF = Path(__file__).resolve().parent.parent
 
 # id -> (implemented, category, technique, level text, level note, design ref)
 P = {
+    'C01': (True, 'exploration',
+            'provenance-carrying values checked against a reference evaluation of the configuration, over multi-process histories on one data directory',
+            'Histories of 1-3 real OS processes (some freshly spawned with another hash seed) x 2-3 chains each over ONE data directory, built from families of '
+            'related configurations (contexts, root namespace, parts, copied files with one value changed, one file mounted under two namespaces with swapped '
+            'per-namespace values); arbitrary request orders, forcing, injected run/generator failures and retries. Each generated run returns a value that is a '
+            'hash of its task, persisted parameters and the digests of the inputs it read, so stale/foreign results cannot coincide with the reference value.',
+            'Parameter mode; determinism of generated tasks; results deliberately deleted through another chain while a handle is held in memory are not judged.',
+            'DESIGN.md §3 C01'),
+    'C04': (True, 'exploration',
+            'invocation log of the real run methods checked step by step against a store/memory model (multiset of runs per step; at-most-once per location)',
+            'Histories without forcing/failure/deletion over one data directory (up to 4 processes x 4 chains), requests on arbitrary tasks, inspection calls '
+            'interleaved everywhere; after every step the set of executed runs (task, key) must equal the model prediction (in memory -> none, stored -> load '
+            'without touching upstream, else run + needed inputs); has_data == stored flag; build/inspect steps run nothing; every location computed at most once per history.',
+            'Sequential histories; identity classes of task objects are taken from observation, not assumed.',
+            'DESIGN.md §3 C04'),
+    'C07': (True, 'exploration',
+            'forced-flag / run-log / audit-hook file-event monitors checked against descendant closures and the store/memory/forced model',
+            'Histories dominated by chain.force (names/objects/scalar, all recompute x delete_data combinations, namesakes under several namespaces) and Task.force on '
+            'full/partial/empty stores: after each force is_forced of every task == flags before U closure; removed result files == forced tasks that had data; '
+            'recompute executes each forced task exactly once; forced tasks run once on the next request and write their location again; unforced stored tasks load.',
+            'Recomputation count of tasks shared between MultiChain members is out of scope here (C13).',
+            'DESIGN.md §3 C07'),
     'C08': (True, 'exploration',
             'reference graph model vs real chains built in separate processes (names, input bindings by object identity, edges, closures, construction errors)',
             'Generated pipelines with every documented input form over namespace trees (incl. the same file mounted twice, multi-config #part references, '
